@@ -397,3 +397,32 @@ func VF_C13_modmul_modpow() {
 		}
 	}
 }
+
+//vf:tier quick
+//vf:bigint theory
+//vf:unwind 64
+//vf:bound DIV and MOD with a dividend that is any 64-bit integer and a divisor from {-1,1,2,-2,3,-3,7,10,-2^63,2^63-1} or any integer in [-128,127]
+func VF_C13_div_mod_int64() {
+	a := big.NewInt(vfI64("a"))
+	var b *big.Int
+	if vfBool("small-symbolic-divisor") {
+		b = big.NewInt(int64(int8(vfU8("b"))))
+	} else {
+		b = vhConst("d", []string{"-1", "1", "2", "-2", "3", "-3", "7", "10", "-9223372036854775808", "9223372036854775807"})
+	}
+	if vfChoose("op", 0, 1) == 0 {
+		v, err := vhExec(opcode.DIV, vhI(a), vhI(b))
+		if b.Sign() == 0 {
+			vfAssert(err != nil, "DIV:by-zero=>FAULT")
+			return
+		}
+		vhExpectInt(v, err, new(big.Int).Quo(a, b), "DIV64")
+	} else {
+		v, err := vhExec(opcode.MOD, vhI(a), vhI(b))
+		if b.Sign() == 0 {
+			vfAssert(err != nil, "MOD:by-zero=>FAULT")
+			return
+		}
+		vhExpectInt(v, err, new(big.Int).Rem(a, b), "MOD64")
+	}
+}
